@@ -574,1095 +574,4 @@ theorem optimize_retained_roots_fixed {s s' : Store} {roots m : List Nat}
     m.length = roots.length ∧ ∀ (k r : Nat), roots[k]? = some r → r < s.retention → m[k]? = some r :=
   optimizeBody_retained_roots_fixed (optimize_ok h).2
 
-
-/-! ### unfoldings: bisimulation principle, decodable addresses, stability of shapes -/
-
-/-- pairwise relation of two lists (core has no `Forall₂`) -/
-inductive AllRel {α β} (R : α → β → Prop) : List α → List β → Prop where
-  | nil : AllRel R [] []
-  | cons {a b l l'} : R a b → AllRel R l l' → AllRel R (a :: l) (b :: l')
-
-/-- Prop-level bisimulation principle: related addresses have equal shapes up to related children -/
-theorem bisim_unfold (h h' : Array Cell) (R : Nat → Nat → Prop)
-    (hR : ∀ a a', R a a' → ∃ s s', shape h a = some s ∧ shape h' a' = some s' ∧ s.label = s'.label ∧
-      s.inl = s'.inl ∧ AllRel R s.kids s'.kids) :
-    ∀ (fuel a a' : Nat), R a a' → unfold h fuel a = unfold h' fuel a' := by
-  intro fuel
-  induction fuel with
-  | zero => intro a a' _; simp [unfold]
-  | succ f ih =>
-    intro a a' hr
-    obtain ⟨s, s', hs, hs', hl, hi, hk⟩ := hR a a' hr
-    have hkids : ∀ (l l' : List Nat), AllRel R l l' → allSome (unfold h f) l = allSome (unfold h' f) l' := by
-      intro l l' hk
-      induction hk with
-      | nil => rfl
-      | cons hab _ ih2 => simp [allSome, ih _ _ hab, ih2]
-    have hkids := hkids _ _ hk
-    simp [unfold, hs, hs', hkids, hl, hi]
-
-/-- an address with an unfolding: the graph below it is acyclic and every node has a shape -/
-def Dec (cells : Array Cell) (a : Nat) : Prop := ∃ fuel t, unfold cells fuel a = some t
-
-theorem allSome_some_mem {α β} {f : α → Option β} : ∀ {l : List α} {r : List β}, allSome f l = some r →
-    ∀ x ∈ l, ∃ y, f x = some y
-  | [], _, _, x, hx => by simp at hx
-  | a :: l, r, h, x, hx => by
-    simp only [allSome] at h
-    cases hfa : f a with
-    | none => simp [hfa] at h
-    | some y =>
-      cases hl : allSome f l with
-      | none => simp [hfa, hl] at h
-      | some ys =>
-        rcases List.mem_cons.mp hx with rfl | hm
-        · exact ⟨y, hfa⟩
-        · exact allSome_some_mem hl x hm
-
-theorem Dec.shape {cells : Array Cell} {a : Nat} (h : Dec cells a) :
-    ∃ sh, shape cells a = some sh ∧ ∀ k ∈ sh.kids, Dec cells k := by
-  obtain ⟨fuel, t, ht⟩ := h
-  cases fuel with
-  | zero => simp [unfold] at ht
-  | succ f =>
-    simp only [unfold] at ht
-    cases hs : BasicOpt.shape cells a with
-    | none => simp [hs] at ht
-    | some sh =>
-      simp only [hs, Option.map_eq_some_iff] at ht
-      obtain ⟨ts, hts, _⟩ := ht
-      refine ⟨sh, rfl, ?_⟩
-      intro k hk
-      obtain ⟨y, hy⟩ := allSome_some_mem hts k hk
-      exact ⟨f, y, hy⟩
-
-/-- every cell of `cells` other than a `CloneItem` is still there in `cells'` -/
-def AgreeNC (cells cells' : Array Cell) : Prop :=
-  ∀ (i : Nat) (c : Cell), cells[i]? = some c → (∀ x, c ≠ .cloneItem x) → cells'[i]? = some c
-
-theorem inlineCells_agree {cells cells' : Array Cell} (hag : AgreeNC cells cells') (p : Cell → Bool)
-    (hp : ∀ x, p (.cloneItem x) = false) :
-    ∀ (n a : Nat) (l : List Cell), inlineCells cells p a n = some l → inlineCells cells' p a n = some l
-  | 0, a, l, h => by simpa [inlineCells] using h
-  | n + 1, a, l, h => by
-    simp only [inlineCells] at h ⊢
-    cases hc : cells[a]? with
-    | none => simp [hc] at h
-    | some c =>
-      rw [hc] at h
-      simp only at h
-      split at h
-      · rename_i hpc
-        have hne : ∀ x, c ≠ .cloneItem x := by
-          intro x hx; rw [hx, hp x] at hpc; exact Bool.false_ne_true hpc
-        rw [hag a c hc hne]
-        simp only [hpc, if_true]
-        simp only [Option.map_eq_some_iff] at h ⊢
-        obtain ⟨t, ht, rfl⟩ := h
-        exact ⟨t, inlineCells_agree hag p hp n (a + 1) t ht, rfl⟩
-      · simp at h
-
-theorem listItems_agree {cells cells' : Array Cell} (hag : AgreeNC cells cells') :
-    ∀ (n a : Nat) (l : List Nat), listItems cells a n = some l → listItems cells' a n = some l
-  | 0, a, l, h => by simpa [listItems] using h
-  | n + 1, a, l, h => by
-    simp only [listItems] at h ⊢
-    cases hc : cells[a]? with
-    | none => simp [hc] at h
-    | some c =>
-      rw [hc] at h
-      cases c <;> simp only [] at h <;> try (simp at h; done)
-      rw [hag a _ hc (by intro x hx; cases hx)]
-      simp only [Option.map_eq_some_iff] at h ⊢
-      obtain ⟨t, ht, rfl⟩ := h
-      exact ⟨t, listItems_agree hag n (a + 1) t ht, rfl⟩
-
-theorem assocItems_agree {cells cells' : Array Cell} (hag : AgreeNC cells cells') :
-    ∀ (n a : Nat) (l : List Cell × List Nat), assocItems cells a n = some l → assocItems cells' a n = some l
-  | 0, a, l, h => by simpa [assocItems] using h
-  | n + 1, a, l, h => by
-    simp only [assocItems] at h ⊢
-    cases hc : cells[a]? with
-    | none => simp [hc] at h
-    | some c =>
-      rw [hc] at h
-      cases c <;> simp only [] at h <;> try (simp at h; done)
-      rw [hag a _ hc (by intro x hx; cases hx)]
-      simp only [Option.map_eq_some_iff] at h ⊢
-      obtain ⟨t, ht, rfl⟩ := h
-      exact ⟨t, assocItems_agree hag n (a + 1) t ht, rfl⟩
-
-theorem framePoint_agree {cells cells' : Array Cell} (hag : AgreeNC cells cells') {a : Nat} {c : Cell}
-    (h : framePoint cells a = some c) : framePoint cells' a = some c := by
-  cases a with
-  | zero => simp [framePoint] at h
-  | succ a =>
-    simp only [framePoint] at h ⊢
-    cases hc : cells[a]? with
-    | none => simp [hc] at h
-    | some d =>
-      rw [hc] at h
-      cases d <;> simp only [] at h <;> try (simp at h; done)
-      rw [hag a _ hc (by intro x hx; cases hx)]
-      exact h
-
-theorem shape_agree {cells cells' : Array Cell} (hag : AgreeNC cells cells') {a : Nat} {sh : Shape}
-    (h : shape cells a = some sh) : shape cells' a = some sh := by
-  unfold shape at h ⊢
-  cases hc : cells[a]? with
-  | none => simp [hc] at h
-  | some c =>
-    rw [hc] at h
-    cases c <;> simp only [] at h <;> try (simp at h; done)
-    all_goals rw [hag a _ hc (by intro x hx; cases hx)]
-    all_goals simp only []
-    all_goals first
-      | exact h
-      | (simp only [Option.map_eq_some_iff] at h ⊢
-         obtain ⟨t, ht, rfl⟩ := h
-         first
-           | exact ⟨t, inlineCells_agree hag _ (by intro x; rfl) _ _ _ ht, rfl⟩
-           | exact ⟨t, framePoint_agree hag ht, rfl⟩)
-      | (split at h
-         · rename_i items keys targets h1 h2
-           rw [listItems_agree hag _ _ _ h1, assocItems_agree hag _ _ _ h2]
-           exact h
-         · simp at h)
-
-theorem AgreeNC.refl (cells : Array Cell) : AgreeNC cells cells := fun _ _ h _ => h
-
-/-- a decodable address unfolds to the same tree in any heap that keeps all non-`CloneItem` cells -/
-theorem unfold_agree {cells cells' : Array Cell} (hag : AgreeNC cells cells') {a : Nat} (hd : Dec cells a) :
-    ∀ fuel, unfold cells fuel a = unfold cells' fuel a := by
-  intro fuel
-  refine bisim_unfold cells cells' (fun x x' => x' = x ∧ Dec cells x) ?_ fuel a a ⟨rfl, hd⟩
-  intro x x' ⟨hx, hdx⟩
-  subst hx
-  obtain ⟨sh, hsh, hk⟩ := hdx.shape
-  refine ⟨sh, sh, hsh, shape_agree hag hsh, rfl, rfl, ?_⟩
-  have : ∀ l : List Nat, (∀ k ∈ l, Dec cells k) → AllRel (fun x x' => x' = x ∧ Dec cells x) l l := by
-    intro l
-    induction l with
-    | nil => intro _; exact AllRel.nil
-    | cons k l ih => intro hl; exact AllRel.cons ⟨rfl, hl k (by simp)⟩ (ih (fun k' hk' => hl k' (by simp [hk'])))
-  exact this _ hk
-
-
-/-! ### what one clone step produces, arm by arm -/
-
-/-- the shape of a cell that is read without its neighbours -/
-def soloShape : Cell → Option Shape
-  | .pair l r => some ⟨.pair 0 0, [], [l, r]⟩
-  | .range l r => some ⟨.range 0 0, [], [l, r]⟩
-  | .slice l r => some ⟨.slice 0 0, [], [l, r]⟩
-  | .partial_ l r => some ⟨.partial_ 0 0, [], [l, r]⟩
-  | .concatenation l r => some ⟨.concatenation 0 0, [], [l, r]⟩
-  | .value p v => some ⟨.value 0 0, [], [p, v]⟩
-  | .valueRoot v => some ⟨.valueRoot 0, [], [v]⟩
-  | .register p v => some ⟨.register 0 0, [], [p, v]⟩
-  | .registerRoot v => some ⟨.registerRoot 0, [], [v]⟩
-  | .instructionWithData code d => some ⟨.instructionWithData code 0, [], [d]⟩
-  | .unit => some ⟨.unit, [], []⟩ | .tru => some ⟨.tru, [], []⟩ | .fls => some ⟨.fls, [], []⟩
-  | .type t => some ⟨.type t, [], []⟩ | .number n => some ⟨.number n, [], []⟩
-  | .char n => some ⟨.char n, [], []⟩ | .byte n => some ⟨.byte n, [], []⟩ | .symbol n => some ⟨.symbol n, [], []⟩
-  | .expression n => some ⟨.expression n, [], []⟩ | .external n => some ⟨.external n, [], []⟩
-  | .custom => some ⟨.custom, [], []⟩ | .empty => some ⟨.empty, [], []⟩
-  | .jumpPoint n => some ⟨.jumpPoint n, [], []⟩ | .instruction n => some ⟨.instruction n, [], []⟩
-  | _ => none
-
-theorem shape_of_solo {cells : Array Cell} {a : Nat} {c : Cell} {sh : Shape}
-    (hc : cells[a]? = some c) (hs : soloShape c = some sh) : shape cells a = some sh := by
-  unfold shape
-  rw [hc]
-  cases c <;> simp only [soloShape] at hs ⊢ <;> first | exact hs | (simp at hs)
-
-theorem solo_of_shape {cells : Array Cell} {a : Nat} {c : Cell} {sh sh' : Shape}
-    (hc : cells[a]? = some c) (hs : soloShape c = some sh') (h : shape cells a = some sh) : sh = sh' := by
-  rw [shape_of_solo hc hs] at h
-  exact (Option.some.inj h).symm
-
-theorem pushLast_one {s s' : Store} {c : Cell} {r : Nat} (h : Store.pushLast s [c] 0 = .ok (s', r)) :
-    r = s.cells.size ∧ s'.cells = s.cells.push c := by
-  simp only [Store.pushLast, bind_eq_ok] at h
-  obtain ⟨⟨s1, i1⟩, h1, h2⟩ := h
-  simp only [Outcome.ok.injEq, Prod.mk.injEq] at h2
-  obtain ⟨h3, h4⟩ := h2
-  subst h3
-  obtain ⟨hi, hc, _⟩ := push_ok h1
-  exact ⟨by rw [← h4, hi], hc⟩
-
-theorem pushLast_two {s s' : Store} {c d : Cell} {r : Nat} (h : Store.pushLast s [c, d] 0 = .ok (s', r)) :
-    r = s.cells.size + 1 ∧ s'.cells = (s.cells.push c).push d := by
-  simp only [Store.pushLast, bind_eq_ok] at h
-  obtain ⟨⟨s1, i1⟩, h1, ⟨s2, i2⟩, h2, h3⟩ := h
-  simp only [Outcome.ok.injEq, Prod.mk.injEq] at h3
-  obtain ⟨h3, h4⟩ := h3
-  subst h3
-  obtain ⟨_, hc1, _⟩ := push_ok h1
-  obtain ⟨hi2, hc2, _⟩ := push_ok h2
-  refine ⟨by rw [← h4, hi2, hc1]; simp, by rw [hc2, hc1]⟩
-
-theorem shape_push_solo (A : Array Cell) (c : Cell) (sh : Shape) (hs : soloShape c = some sh) :
-    shape (A.push c) A.size = some sh := shape_of_solo (by simp) hs
-
-/-- cloning a cell that is read without its neighbours: the copy has the same label and its links are the
-looked-up links of the original -/
-theorem cloneCell_shape_solo {cur cur2 : Store} {ls le index ni : Nat} {c : Cell} {sh : Shape}
-    (hs : soloShape c = some sh) (hclone : Store.cloneCell cur ls le index c = .ok (cur2, ni)) :
-    ∃ sh', shape cur2.cells ni = some sh' ∧ sh'.label = sh.label ∧ sh'.inl = sh.inl ∧
-      AllRel (fun x x' => Store.lookup cur ls le x = .ok x') sh.kids sh'.kids := by
-  cases c <;> simp only [soloShape, Option.some.injEq] at hs <;> try (simp at hs; done)
-  all_goals subst hs
-  all_goals simp only [Store.cloneCell, Store.relink, bind_eq_ok, pure_eq_ok] at hclone
-  all_goals first
-    | (obtain ⟨hi, hc, _⟩ := push_ok hclone
-       rw [hi, hc]
-       exact ⟨_, shape_push_solo _ _ _ rfl, rfl, rfl, AllRel.nil⟩)
-    | (obtain ⟨cells, ⟨l', hl, r', hr, hcs⟩, hp⟩ := hclone
-       subst hcs
-       obtain ⟨hi, hc⟩ := pushLast_one hp
-       rw [hi, hc]
-       exact ⟨_, shape_push_solo _ _ _ rfl, rfl, rfl, AllRel.cons hl (AllRel.cons hr AllRel.nil)⟩)
-    | (obtain ⟨cells, ⟨l', hl, hcs⟩, hp⟩ := hclone
-       subst hcs
-       obtain ⟨hi, hc⟩ := pushLast_one hp
-       rw [hi, hc]
-       exact ⟨_, shape_push_solo _ _ _ rfl, rfl, rfl, AllRel.cons hl AllRel.nil⟩)
-
-theorem jumpBefore_ok {s : Store} {index p : Nat} (h : Store.jumpBefore s index = .ok p) :
-    ∃ i, index = i + 1 ∧ s.cells[i]? = some (.jumpPoint p) := by
-  cases index with
-  | zero => simp [Store.jumpBefore] at h
-  | succ i =>
-    simp only [Store.jumpBefore, bind_eq_ok] at h
-    obtain ⟨c, hg, h2⟩ := h
-    have hc := get_ok hg
-    cases c <;> simp only [pure_eq_ok] at h2 <;> try (simp at h2; done)
-    subst h2
-    exact ⟨i, rfl, hc⟩
-
-theorem framePoint_push2 (A : Array Cell) (p : Nat) (c : Cell) :
-    framePoint ((A.push (.jumpPoint p)).push c) (A.size + 1) = some (.jumpPoint p) := by
-  have : ((A.push (Cell.jumpPoint p)).push c)[A.size]? = some (Cell.jumpPoint p) := by
-    rw [Array.getElem?_push]; simp
-  simp [framePoint, this]
-
-theorem get_push2 (A : Array Cell) (x c : Cell) : ((A.push x).push c)[A.size + 1]? = some c := by
-  have : A.size + 1 = (A.push x).size := by simp
-  rw [this, Array.getElem?_push]; simp
-
-theorem framePoint_transfer {s0 : Array Cell} {cur : Store} {i point : Nat} {jp : Cell}
-    (hA : ∀ (i : Nat) (c : Cell), s0[i]? = some c → cur.cells[i]? = some c)
-    (hjp : framePoint s0 (i + 1) = some jp) (hcell : cur.cells[i]? = some (.jumpPoint point)) :
-    jp = .jumpPoint point := by
-  simp only [framePoint] at hjp
-  cases hs0 : s0[i]? with
-  | none => simp [hs0] at hjp
-  | some d =>
-    have := hA i d hs0
-    rw [hcell] at this
-    simp only [Option.some.injEq] at this
-    subst this
-    simpa [hs0] using hjp.symm
-
-/-- cloning a frame cell: the return point stored before it is copied with it -/
-theorem cloneCell_shape_frame {s0 : Array Cell} {cur cur2 : Store} {ls le index ni : Nat} {c : Cell} {sh : Shape}
-    (hA : ∀ (i : Nat) (c : Cell), s0[i]? = some c → cur.cells[i]? = some c)
-    (hc : s0[index]? = some c) (hsh : shape s0 index = some sh)
-    (hfr : (∃ p r, c = .frame p r) ∨ (∃ p, c = .frameIndex p) ∨ (∃ r, c = .frameRegister r) ∨ c = .frameRoot)
-    (hclone : Store.cloneCell cur ls le index c = .ok (cur2, ni)) :
-    ∃ sh', shape cur2.cells ni = some sh' ∧ sh'.label = sh.label ∧ sh'.inl = sh.inl ∧
-      AllRel (fun x x' => Store.lookup cur ls le x = .ok x') sh.kids sh'.kids := by
-  unfold shape at hsh
-  rw [hc] at hsh
-  rcases hfr with ⟨p, r, rfl⟩ | ⟨p, rfl⟩ | ⟨r, rfl⟩ | rfl
-  all_goals simp only [Option.map_eq_some_iff] at hsh
-  all_goals obtain ⟨jp, hjp, rfl⟩ := hsh
-  all_goals simp only [Store.cloneCell, Store.relink, bind_eq_ok, pure_eq_ok] at hclone
-  · obtain ⟨cells, ⟨point, hpt, p', hp', r', hr', hcs⟩, hpl⟩ := hclone
-    subst hcs
-    obtain ⟨hi, hcells⟩ := pushLast_two hpl
-    obtain ⟨i, hidx, hcell⟩ := jumpBefore_ok hpt
-    subst hidx
-    have hjp' := framePoint_transfer hA hjp hcell
-    subst hjp'
-    rw [hi, hcells]
-    refine ⟨⟨.frame 0 0, [.jumpPoint point], [p', r']⟩, ?_, rfl, rfl, AllRel.cons hp' (AllRel.cons hr' AllRel.nil)⟩
-    unfold shape
-    rw [get_push2]
-    simp [framePoint_push2]
-  · obtain ⟨cells, ⟨point, hpt, p', hp', hcs⟩, hpl⟩ := hclone
-    subst hcs
-    obtain ⟨hi, hcells⟩ := pushLast_two hpl
-    obtain ⟨i, hidx, hcell⟩ := jumpBefore_ok hpt
-    subst hidx
-    have hjp' := framePoint_transfer hA hjp hcell
-    subst hjp'
-    rw [hi, hcells]
-    refine ⟨⟨.frameIndex 0, [.jumpPoint point], [p']⟩, ?_, rfl, rfl, AllRel.cons hp' AllRel.nil⟩
-    unfold shape
-    rw [get_push2]
-    simp [framePoint_push2]
-  · obtain ⟨cells, ⟨point, hpt, p', hp', hcs⟩, hpl⟩ := hclone
-    subst hcs
-    obtain ⟨hi, hcells⟩ := pushLast_two hpl
-    obtain ⟨i, hidx, hcell⟩ := jumpBefore_ok hpt
-    subst hidx
-    have hjp' := framePoint_transfer hA hjp hcell
-    subst hjp'
-    rw [hi, hcells]
-    refine ⟨⟨.frameRegister 0, [.jumpPoint point], [p']⟩, ?_, rfl, rfl, AllRel.cons hp' AllRel.nil⟩
-    unfold shape
-    rw [get_push2]
-    simp [framePoint_push2]
-  · obtain ⟨cells, ⟨point, hpt, hcs⟩, hpl⟩ := hclone
-    subst hcs
-    obtain ⟨hi, hcells⟩ := pushLast_two hpl
-    obtain ⟨i, hidx, hcell⟩ := jumpBefore_ok hpt
-    subst hidx
-    have hjp' := framePoint_transfer hA hjp hcell
-    subst hjp'
-    rw [hi, hcells]
-    refine ⟨⟨.frameRoot, [.jumpPoint point], []⟩, ?_, rfl, rfl, AllRel.nil⟩
-    unfold shape
-    rw [get_push2]
-    simp [framePoint_push2]
-
-
-theorem inlineCells_props {cells : Array Cell} {p : Cell → Bool} :
-    ∀ (n a : Nat) (l : List Cell), inlineCells cells p a n = some l → l.length = n ∧ ∀ c ∈ l, p c = true
-  | 0, a, l, h => by
-    simp only [inlineCells, Option.some.injEq] at h
-    subst h; simp
-  | n + 1, a, l, h => by
-    simp only [inlineCells] at h
-    cases hc : cells[a]? with
-    | none => simp [hc] at h
-    | some c =>
-      rw [hc] at h
-      simp only at h
-      split at h
-      · rename_i hpc
-        simp only [Option.map_eq_some_iff] at h
-        obtain ⟨t, ht, rfl⟩ := h
-        obtain ⟨h1, h2⟩ := inlineCells_props n (a + 1) t ht
-        refine ⟨by simp [h1], ?_⟩
-        intro c' hc'
-        rcases List.mem_cons.mp hc' with rfl | hm
-        · exact hpc
-        · exact h2 c' hm
-      · simp at h
-
-/-- reading back what was appended -/
-theorem inlineCells_suffix {p : Cell → Bool} : ∀ (l pre post : List Cell) (cells : Array Cell),
-    (∀ c ∈ l, p c = true) → cells.toList = pre ++ l ++ post → inlineCells cells p pre.length l.length = some l
-  | [], pre, post, cells, _, _ => by simp [inlineCells]
-  | c :: l, pre, post, cells, hp, hcells => by
-    simp only [List.length_cons, inlineCells]
-    have hget : cells[pre.length]? = some c := by
-      rw [← Array.getElem?_toList, hcells]
-      simp
-    rw [hget]
-    simp only [hp c (by simp), if_true]
-    have := inlineCells_suffix l (pre ++ [c]) post cells (fun c' hc' => hp c' (by simp [hc'])) (by simp [hcells])
-    simp only [List.length_append, List.length_singleton] at this
-    rw [this]; rfl
-
-theorem copyCells_spec {p : Cell → Bool} (hp : ∀ x, p (.cloneItem x) = false) :
-    ∀ (n : Nat) (s s' : Store) (i : Nat) (l : List Cell), inlineCells s.cells p i n = some l →
-      Store.copyCells s i n = .ok s' → s'.cells.toList = s.cells.toList ++ l
-  | 0, s, s', i, l, hl, h => by
-    simp only [inlineCells, Option.some.injEq] at hl
-    simp only [Store.copyCells, Outcome.ok.injEq] at h
-    subst hl; subst h; simp
-  | n + 1, s, s', i, l, hl, h => by
-    simp only [Store.copyCells, bind_eq_ok] at h
-    obtain ⟨c, hg, ⟨s1, i1⟩, hpush, hrest⟩ := h
-    have hc := get_ok hg
-    simp only [inlineCells, hc] at hl
-    split at hl
-    · simp only [Option.map_eq_some_iff] at hl
-      obtain ⟨t, ht, rfl⟩ := hl
-      obtain ⟨_, hcells, _⟩ := push_ok hpush
-      have hag : AgreeNC s.cells s1.cells := by
-        intro j d hj _
-        rw [hcells, Array.getElem?_push]
-        have : j < s.cells.size := by
-          rcases Nat.lt_or_ge j s.cells.size with h | h
-          · exact h
-          · rw [Array.getElem?_eq_none h] at hj; cases hj
-        simp [Nat.ne_of_lt this, hj]
-      have ht' := inlineCells_agree hag p hp n (i + 1) t ht
-      have := copyCells_spec hp n s1 s' (i + 1) t ht' hrest
-      rw [this, hcells]; simp
-    · simp at hl
-
-
-theorem agreeNC_of_all {s0 cells : Array Cell}
-    (hA : ∀ (i : Nat) (c : Cell), s0[i]? = some c → cells[i]? = some c) : AgreeNC s0 cells :=
-  fun i c h _ => hA i c h
-
-theorem inline_core {p : Cell → Bool} (hp : ∀ x, p (.cloneItem x) = false) {s0 : Array Cell} {cur s1 s2 : Store}
-    {index li n : Nat} {hdr : Cell} {inl : List Cell}
-    (hA : ∀ (i : Nat) (c : Cell), s0[i]? = some c → cur.cells[i]? = some c)
-    (hinl : inlineCells s0 p (index + 1) n = some inl)
-    (hpush : cur.push hdr = .ok (s1, li)) (hcopy : Store.copyCells s1 (index + 1) n = .ok s2) :
-    li = cur.cells.size ∧ s2.cells[li]? = some hdr ∧ inlineCells s2.cells p (li + 1) n = some inl := by
-  obtain ⟨hi, hcells, _⟩ := push_ok hpush
-  have hag1 : AgreeNC s0 s1.cells := by
-    intro j d hj _
-    have := hA j d hj
-    rw [hcells, Array.getElem?_push]
-    have hlt : j < cur.cells.size := by
-      rcases Nat.lt_or_ge j cur.cells.size with h | h
-      · exact h
-      · rw [Array.getElem?_eq_none h] at this; cases this
-    simp [Nat.ne_of_lt hlt, this]
-  have hinl1 := inlineCells_agree hag1 p hp _ _ _ hinl
-  have hlist := copyCells_spec hp _ _ _ _ _ hinl1 hcopy
-  obtain ⟨hlen, hall⟩ := inlineCells_props _ _ _ hinl
-  have hl2 : s2.cells.toList = (cur.cells.toList ++ [hdr]) ++ inl ++ [] := by
-    rw [hlist, hcells]; simp
-  have hread := inlineCells_suffix inl _ [] s2.cells hall hl2
-  have hhdr : s2.cells[li]? = some hdr := by
-    rw [← Array.getElem?_toList, hl2, hi]; simp
-  simp only [List.length_append, List.length_singleton, Array.length_toList, hlen] at hread
-  rw [← hi] at hread
-  exact ⟨hi, hhdr, hread⟩
-
-/-- cloning text, bytes or a symbol list: the inline cells are copied behind the header -/
-theorem cloneCell_shape_inline {s0 : Array Cell} {cur cur2 : Store} {ls le index ni : Nat} {c : Cell} {sh : Shape}
-    (hA : ∀ (i : Nat) (c : Cell), s0[i]? = some c → cur.cells[i]? = some c)
-    (hc : s0[index]? = some c) (hsh : shape s0 index = some sh)
-    (hin : (∃ n, c = .charList n) ∨ (∃ n, c = .byteList n) ∨ (∃ n, c = .symbolList n))
-    (hclone : Store.cloneCell cur ls le index c = .ok (cur2, ni)) :
-    ∃ sh', shape cur2.cells ni = some sh' ∧ sh'.label = sh.label ∧ sh'.inl = sh.inl ∧
-      AllRel (fun x x' => Store.lookup cur ls le x = .ok x') sh.kids sh'.kids := by
-  unfold shape at hsh
-  rw [hc] at hsh
-  rcases hin with ⟨n, rfl⟩ | ⟨n, rfl⟩ | ⟨n, rfl⟩
-  all_goals simp only [Option.map_eq_some_iff] at hsh
-  all_goals obtain ⟨inl, hinl, rfl⟩ := hsh
-  all_goals simp only [Store.cloneCell, bind_eq_ok, pure_eq_ok, Prod.mk.injEq] at hclone
-  all_goals obtain ⟨⟨s1, li⟩, hpush, s2, hcopy, hs2, hli⟩ := hclone
-  all_goals subst hs2
-  all_goals subst hli
-  all_goals obtain ⟨_, hhdr, hread⟩ := inline_core (by intro x; rfl) hA hinl hpush hcopy
-  all_goals refine ⟨⟨_, inl, []⟩, ?_, rfl, rfl, AllRel.nil⟩
-  all_goals unfold shape
-  all_goals rw [hhdr]
-  all_goals simp only [hread, Option.map_some]
-
-
-/-! ### the reversed walk of `clone_index_stack`: invariant and `clone_preserves` -/
-
-set_option maxHeartbeats 1000000
-
-theorem shape_cell {cells : Array Cell} {a : Nat} {sh : Shape} (h : shape cells a = some sh) :
-    ∃ c, cells[a]? = some c := by
-  unfold shape at h
-  cases hc : cells[a]? with
-  | none => simp [hc] at h
-  | some c => exact ⟨c, rfl⟩
-
-/-- one clone step, every kind of cell except lists -/
-theorem cloneCell_shape {s0 : Array Cell} {cur cur2 : Store} {ls le index ni : Nat} {c : Cell} {sh : Shape}
-    (hA : ∀ (i : Nat) (c : Cell), s0[i]? = some c → cur.cells[i]? = some c)
-    (hc : s0[index]? = some c) (hsh : shape s0 index = some sh)
-    (hnl : ∀ n k, c ≠ .list n k)
-    (hclone : Store.cloneCell cur ls le index c = .ok (cur2, ni)) :
-    ∃ sh', shape cur2.cells ni = some sh' ∧ sh'.label = sh.label ∧ sh'.inl = sh.inl ∧
-      AllRel (fun x x' => Store.lookup cur ls le x = .ok x') sh.kids sh'.kids := by
-  cases hso : soloShape c with
-  | some x =>
-    have : sh = x := solo_of_shape hc hso hsh
-    subst this
-    exact cloneCell_shape_solo hso hclone
-  | none =>
-    cases c <;> simp only [soloShape] at hso <;> try (simp at hso; done)
-    · exact cloneCell_shape_inline hA hc hsh (Or.inr (Or.inr ⟨_, rfl⟩)) hclone
-    · exact cloneCell_shape_inline hA hc hsh (Or.inl ⟨_, rfl⟩) hclone
-    · exact cloneCell_shape_inline hA hc hsh (Or.inr (Or.inl ⟨_, rfl⟩)) hclone
-    · exact absurd rfl (hnl _ _)
-    all_goals first
-      | (unfold shape at hsh; rw [hc] at hsh; simp at hsh; done)
-      | exact cloneCell_shape_frame hA hc hsh (Or.inl ⟨_, _, rfl⟩) hclone
-      | exact cloneCell_shape_frame hA hc hsh (Or.inr (Or.inl ⟨_, rfl⟩)) hclone
-      | exact cloneCell_shape_frame hA hc hsh (Or.inr (Or.inr (Or.inl ⟨_, rfl⟩))) hclone
-      | exact cloneCell_shape_frame hA hc hsh (Or.inr (Or.inr (Or.inr rfl))) hclone
-
-theorem findMap_some {cells : Array Cell} {idx nw : Nat} : ∀ (n lo : Nat), Store.findMap cells idx lo n = some nw →
-    ∃ j, lo ≤ j ∧ j < lo + n ∧ cells[j]? = some (.cloneIndexMap idx nw)
-  | 0, lo, h => by simp [Store.findMap] at h
-  | n + 1, lo, h => by
-    simp only [Store.findMap] at h
-    split at h
-    · rename_i o nw' hcell
-      split at h
-      · rename_i ho
-        simp only [Option.some.injEq] at h
-        subst h; subst ho
-        exact ⟨lo, Nat.le_refl _, by omega, hcell⟩
-      · obtain ⟨j, h1, h2, h3⟩ := findMap_some n (lo + 1) h
-        exact ⟨j, by omega, by omega, h3⟩
-    · obtain ⟨j, h1, h2, h3⟩ := findMap_some n (lo + 1) h
-      exact ⟨j, by omega, by omega, h3⟩
-
-/-- `x ↦ x'` is a link the clone loop has established: retained, or a map entry at a processed position -/
-def Link (cur : Store) (lo hi : Nat) (x x' : Nat) : Prop :=
-  (x' = x ∧ x < cur.retention) ∨ ∃ j, lo ≤ j ∧ j < hi ∧ cur.cells[j]? = some (.cloneIndexMap x x')
-
-theorem lookupOpt_link {cur : Store} {lo hi x x' : Nat}
-    (h : Store.lookupOpt cur (cur.start + lo) (cur.start + hi) x = .ok (some x')) : Link cur lo hi x x' := by
-  unfold Store.lookupOpt at h
-  split at h
-  · simp only [Outcome.ok.injEq, Option.some.injEq] at h
-    subst h; exact Or.inl ⟨rfl, by assumption⟩
-  · split at h
-    · simp at h
-    · split at h
-      · simp at h
-      · simp only [Outcome.ok.injEq] at h
-        have e1 : cur.start + lo - cur.start = lo := by omega
-        have e2 : cur.start + hi - cur.start = hi := by omega
-        rw [e1, e2] at h
-        obtain ⟨j, h1, h2, h3⟩ := findMap_some _ _ h
-        exact Or.inr ⟨j, h1, by omega, h3⟩
-
-theorem lookup_link {cur : Store} {lo hi x x' : Nat}
-    (h : Store.lookup cur (cur.start + lo) (cur.start + hi) x = .ok x') : Link cur lo hi x x' := by
-  simp only [Store.lookup, bind_eq_ok] at h
-  obtain ⟨o, ho, h2⟩ := h
-  cases o with
-  | none => simp at h2
-  | some v =>
-    simp only [pure_eq_ok] at h2
-    subst h2
-    exact lookupOpt_link ho
-
-theorem AllRel.imp {α β} {R S : α → β → Prop} (h : ∀ a b, R a b → S a b) :
-    ∀ {l : List α} {l' : List β}, AllRel R l l' → AllRel S l l'
-  | _, _, .nil => .nil
-  | _, _, .cons hab t => .cons (h _ _ hab) (AllRel.imp h t)
-
-
-/-- `st` is `cur` with data cells appended -/
-structure Grown (cur st : Store) : Prop where
-  start : st.start = cur.start
-  ret : st.retention = cur.retention
-  keep : ∀ j, j < cur.cells.size → st.cells[j]? = cur.cells[j]?
-  mono : cur.cells.size ≤ st.cells.size
-
-theorem Grown.refl (s : Store) : Grown s s := ⟨rfl, rfl, fun _ _ => rfl, Nat.le_refl _⟩
-
-theorem Grown.trans {a b c : Store} (h1 : Grown a b) (h2 : Grown b c) : Grown a c :=
-  ⟨h2.start.trans h1.start, h2.ret.trans h1.ret,
-   fun j hj => (h2.keep j (Nat.lt_of_lt_of_le hj h1.mono)).trans (h1.keep j hj), Nat.le_trans h1.mono h2.mono⟩
-
-theorem Grown.of_ext {a b : Store} (h : Ext a.cells.size a b) : Grown a b :=
-  ⟨h.frame.2.1, h.frame.1, fun j hj => h.keep j hj hj, h.mono⟩
-
-/-- a link looked up in `cur` or in `cur` with cells appended -/
-def LinkVia (cur : Store) (ls le x x' : Nat) : Prop := ∃ st, Grown cur st ∧ Store.lookup st ls le x = .ok x'
-
-inductive SlotRel (L : Nat → Nat → Prop) : Cell → Cell → Prop where
-  | item {x x'} : L x x' → SlotRel L (.listItem x) (.listItem x')
-  | assoc {sy x x'} : L x x' → SlotRel L (.associativeItem sy x) (.associativeItem sy x')
-  | empty : SlotRel L .empty .empty
-
-theorem SlotRel.imp {L M : Nat → Nat → Prop} (h : ∀ a b, L a b → M a b) {c c' : Cell} :
-    SlotRel L c c' → SlotRel M c c'
-  | .item hl => .item (h _ _ hl)
-  | .assoc hl => .assoc (h _ _ hl)
-  | .empty => .empty
-
-theorem cloneSlots_spec (ls le : Nat) : ∀ (m : Nat) (s s' : Store) (i : Nat),
-    Store.cloneSlots ls le s i m = .ok s' →
-      Grown s s' ∧ ∀ t, t < m → i + t < s.cells.size →
-        ∃ c c', s.cells[i + t]? = some c ∧ s'.cells[s.cells.size + t]? = some c' ∧ SlotRel (LinkVia s ls le) c c'
-  | 0, s, s', i, h => by
-    simp only [Store.cloneSlots, Outcome.ok.injEq] at h
-    subst h
-    exact ⟨Grown.refl _, fun t ht => by omega⟩
-  | m + 1, s, s', i, h => by
-    simp only [Store.cloneSlots, bind_eq_ok] at h
-    obtain ⟨c, hg, h2⟩ := h
-    have hc := get_ok hg
-    -- common tail once the relinked cell `c'` is known
-    have tail : ∀ (c' : Cell) (s1 : Store) (i1 : Nat), SlotRel (LinkVia s ls le) c c' → s.push c' = .ok (s1, i1) →
-        Store.cloneSlots ls le s1 (i + 1) m = .ok s' →
-        Grown s s' ∧ ∀ t, t < m + 1 → i + t < s.cells.size →
-          ∃ c c', s.cells[i + t]? = some c ∧ s'.cells[s.cells.size + t]? = some c' ∧ SlotRel (LinkVia s ls le) c c' := by
-      intro c' s1 i1 hrel hpush hrest
-      obtain ⟨_, hcells, _⟩ := push_ok hpush
-      have g1 : Grown s s1 := Grown.of_ext (push_ext _ hpush)
-      obtain ⟨g2, ih⟩ := cloneSlots_spec ls le m s1 s' (i + 1) hrest
-      have hsz : s1.cells.size = s.cells.size + 1 := by rw [hcells]; simp
-      refine ⟨g1.trans g2, ?_⟩
-      intro t ht hit
-      cases t with
-      | zero =>
-        refine ⟨c, c', by simpa using hc, ?_, hrel⟩
-        rw [Nat.add_zero, g2.keep _ (by omega), hcells]
-        simp
-      | succ t =>
-        obtain ⟨d, d', hd, hd', hrel'⟩ := ih t (by omega) (by omega)
-        refine ⟨d, d', ?_, ?_, SlotRel.imp (fun a b ⟨st, hst, hl⟩ => ⟨st, g1.trans hst, hl⟩) hrel'⟩
-        · rw [← g1.keep _ (by omega)]
-          have : i + (t + 1) = i + 1 + t := by omega
-          rw [this]; exact hd
-        · have : s.cells.size + (t + 1) = s1.cells.size + t := by omega
-          rw [this]; exact hd'
-    split at h2
-    · simp only [bind_eq_ok] at h2
-      obtain ⟨item', hl, ⟨s1, i1⟩, hpush, hrest⟩ := h2
-      exact tail _ s1 i1 (.item ⟨s, Grown.refl _, hl⟩) hpush hrest
-    · simp only [bind_eq_ok] at h2
-      obtain ⟨item', hl, ⟨s1, i1⟩, hpush, hrest⟩ := h2
-      exact tail _ s1 i1 (.assoc ⟨s, Grown.refl _, hl⟩) hpush hrest
-    · simp only [bind_eq_ok] at h2
-      obtain ⟨⟨s1, i1⟩, hpush, hrest⟩ := h2
-      exact tail _ s1 i1 .empty hpush hrest
-    · simp at h2
-
-theorem listItems_build {L : Nat → Nat → Prop} {s0 cells2 : Array Cell} : ∀ (n a b : Nat) (items : List Nat),
-    listItems s0 a n = some items →
-    (∀ t, t < n → ∃ c c', s0[a + t]? = some c ∧ cells2[b + t]? = some c' ∧ SlotRel L c c') →
-    ∃ items', listItems cells2 b n = some items' ∧ AllRel L items items'
-  | 0, a, b, items, h, _ => by
-    simp only [listItems, Option.some.injEq] at h
-    subst h
-    exact ⟨[], by simp [listItems], .nil⟩
-  | n + 1, a, b, items, h, hs => by
-    simp only [listItems] at h
-    obtain ⟨c, c', hc, hc', hrel⟩ := hs 0 (by omega)
-    simp only [Nat.add_zero] at hc hc'
-    rw [hc] at h
-    cases hrel with
-    | item hl =>
-      simp only [Option.map_eq_some_iff] at h
-      obtain ⟨rest, hrest, rfl⟩ := h
-      obtain ⟨rest', hr', hall⟩ := listItems_build n (a + 1) (b + 1) rest hrest (fun t ht => by
-        obtain ⟨d, d', h1, h2, h3⟩ := hs (t + 1) (by omega)
-        refine ⟨d, d', ?_, ?_, h3⟩
-        · have : a + 1 + t = a + (t + 1) := by omega
-          rw [this]; exact h1
-        · have : b + 1 + t = b + (t + 1) := by omega
-          rw [this]; exact h2)
-      refine ⟨_ :: rest', ?_, .cons hl hall⟩
-      simp only [listItems, hc', hr', Option.map_some]
-    | assoc _ => simp at h
-    | empty => simp at h
-
-theorem assocItems_build {L : Nat → Nat → Prop} {s0 cells2 : Array Cell} : ∀ (n a b : Nat) (keys : List Cell)
-    (targets : List Nat), assocItems s0 a n = some (keys, targets) →
-    (∀ t, t < n → ∃ c c', s0[a + t]? = some c ∧ cells2[b + t]? = some c' ∧ SlotRel L c c') →
-    ∃ targets', assocItems cells2 b n = some (keys, targets') ∧ AllRel L targets targets'
-  | 0, a, b, keys, targets, h, _ => by
-    simp only [assocItems, Option.some.injEq, Prod.mk.injEq] at h
-    obtain ⟨h1, h2⟩ := h
-    subst h1; subst h2
-    exact ⟨[], by simp [assocItems], .nil⟩
-  | n + 1, a, b, keys, targets, h, hs => by
-    simp only [assocItems] at h
-    obtain ⟨c, c', hc, hc', hrel⟩ := hs 0 (by omega)
-    simp only [Nat.add_zero] at hc hc'
-    rw [hc] at h
-    cases hrel with
-    | assoc hl =>
-      simp only [Option.map_eq_some_iff] at h
-      obtain ⟨⟨ks, js⟩, hrest, heq⟩ := h
-      simp only [Prod.mk.injEq] at heq
-      obtain ⟨hk, hj⟩ := heq
-      subst hk; subst hj
-      obtain ⟨rest', hr', hall⟩ := assocItems_build n (a + 1) (b + 1) ks js hrest (fun t ht => by
-        obtain ⟨d, d', h1, h2, h3⟩ := hs (t + 1) (by omega)
-        refine ⟨d, d', ?_, ?_, h3⟩
-        · have : a + 1 + t = a + (t + 1) := by omega
-          rw [this]; exact h1
-        · have : b + 1 + t = b + (t + 1) := by omega
-          rw [this]; exact h2)
-      refine ⟨_ :: rest', ?_, .cons hl hall⟩
-      simp only [assocItems, hc', hr', Option.map_some]
-    | item _ => simp at h
-    | empty => simp at h
-
-theorem AllRel.append {α β} {R : α → β → Prop} : ∀ {l1 : List α} {l1' : List β} {l2 : List α} {l2' : List β},
-    AllRel R l1 l1' → AllRel R l2 l2' → AllRel R (l1 ++ l2) (l1' ++ l2')
-  | _, _, _, _, .nil, h2 => h2
-  | _, _, _, _, .cons hab t, h2 => .cons hab (AllRel.append t h2)
-
-
-theorem listItems_cell {cells : Array Cell} : ∀ (n a : Nat) (items : List Nat), listItems cells a n = some items →
-    ∀ t, t < n → ∃ c, cells[a + t]? = some c
-  | 0, _, _, _, t, ht => by omega
-  | n + 1, a, items, h, t, ht => by
-    simp only [listItems] at h
-    cases hc : cells[a]? with
-    | none => simp [hc] at h
-    | some c =>
-      cases t with
-      | zero => exact ⟨c, by simpa using hc⟩
-      | succ t =>
-        rw [hc] at h
-        cases c <;> simp only [] at h <;> try (simp at h; done)
-        simp only [Option.map_eq_some_iff] at h
-        obtain ⟨rest, hrest, _⟩ := h
-        obtain ⟨d, hd⟩ := listItems_cell n (a + 1) rest hrest t (by omega)
-        exact ⟨d, by have : a + (t + 1) = a + 1 + t := by omega
-                     rw [this]; exact hd⟩
-
-theorem assocItems_cell {cells : Array Cell} : ∀ (n a : Nat) (r : List Cell × List Nat), assocItems cells a n = some r →
-    ∀ t, t < n → ∃ c, cells[a + t]? = some c
-  | 0, _, _, _, t, ht => by omega
-  | n + 1, a, r, h, t, ht => by
-    simp only [assocItems] at h
-    cases hc : cells[a]? with
-    | none => simp [hc] at h
-    | some c =>
-      cases t with
-      | zero => exact ⟨c, by simpa using hc⟩
-      | succ t =>
-        rw [hc] at h
-        cases c <;> simp only [] at h <;> try (simp at h; done)
-        simp only [Option.map_eq_some_iff] at h
-        obtain ⟨rest, hrest, _⟩ := h
-        obtain ⟨d, hd⟩ := assocItems_cell n (a + 1) rest hrest t (by omega)
-        exact ⟨d, by have : a + (t + 1) = a + 1 + t := by omega
-                     rw [this]; exact hd⟩
-
-/-- cloning a list: items and key table are copied behind the header with their links looked up -/
-theorem cloneCell_shape_list {s0 : Array Cell} {cur cur2 : Store} {ls le index ni n k : Nat} {sh : Shape}
-    (hA : ∀ (i : Nat) (c : Cell), s0[i]? = some c → cur.cells[i]? = some c)
-    (hc : s0[index]? = some (.list n k)) (hsh : shape s0 index = some sh) (hkn : k ≤ n)
-    (hclone : Store.cloneCell cur ls le index (.list n k) = .ok (cur2, ni)) :
-    ∃ sh', shape cur2.cells ni = some sh' ∧ sh'.label = sh.label ∧ sh'.inl = sh.inl ∧
-      AllRel (LinkVia cur ls le) sh.kids sh'.kids := by
-  unfold shape at hsh
-  rw [hc] at hsh
-  simp only at hsh
-  split at hsh
-  · rename_i items keys targets h1 h2
-    simp only [Option.some.injEq] at hsh
-    subst hsh
-    simp only [Store.cloneCell, bind_eq_ok, pure_eq_ok, Prod.mk.injEq] at hclone
-    obtain ⟨⟨s1, li⟩, hpush, s2, hslots, hs2, hli⟩ := hclone
-    subst hs2; subst hli
-    obtain ⟨hi, hcells, _⟩ := push_ok hpush
-    have g1 : Grown cur s1 := Grown.of_ext (push_ext _ hpush)
-    have hsz : s1.cells.size = cur.cells.size + 1 := by rw [hcells]; simp
-    obtain ⟨g2, spec⟩ := cloneSlots_spec ls le (n * 2) s1 s2 (index + 1) hslots
-    have slot : ∀ u, u < n * 2 → ∀ d, s0[index + 1 + u]? = some d →
-        ∃ c c', s0[index + 1 + u]? = some c ∧ s2.cells[li + 1 + u]? = some c' ∧ SlotRel (LinkVia cur ls le) c c' := by
-      intro u hu d hd
-      have hcur := hA _ d hd
-      have hlt : index + 1 + u < cur.cells.size := by
-        rcases Nat.lt_or_ge (index + 1 + u) cur.cells.size with h | h
-        · exact h
-        · rw [Array.getElem?_eq_none h] at hcur; cases hcur
-      obtain ⟨c, c', e1, e2, e3⟩ := spec u hu (by omega)
-      rw [g1.keep _ hlt, hcur] at e1
-      simp only [Option.some.injEq] at e1
-      subst e1
-      refine ⟨d, c', hd, ?_, SlotRel.imp (fun a b ⟨st, hst, hl⟩ => ⟨st, g1.trans hst, hl⟩) e3⟩
-      have : li + 1 + u = s1.cells.size + u := by omega
-      rw [this]; exact e2
-    obtain ⟨items', hit, hitrel⟩ := listItems_build n (index + 1) (li + 1) items h1 (fun t ht => by
-      obtain ⟨d, hd⟩ := listItems_cell _ _ _ h1 t ht
-      exact slot t (by omega) d hd)
-    obtain ⟨targets', htg, htgrel⟩ := assocItems_build k (index + 1 + n) (li + 1 + n) keys targets h2 (fun t ht => by
-      obtain ⟨d, hd⟩ := assocItems_cell _ _ _ h2 t ht
-      have e : index + 1 + n + t = index + 1 + (n + t) := by omega
-      have e' : li + 1 + n + t = li + 1 + (n + t) := by omega
-      rw [e, e']
-      rw [e] at hd
-      exact slot (n + t) (by omega) d hd)
-    have hhdr : s2.cells[li]? = some (.list n k) := by
-      rw [g2.keep li (by omega), hcells, hi]; simp
-    refine ⟨⟨.list n k, keys, items' ++ targets'⟩, ?_, rfl, rfl, AllRel.append hitrel htgrel⟩
-    unfold shape
-    rw [hhdr]
-    simp only [hit, htg]
-  · simp at hsh
-
-/-- one clone step, every kind of cell (lists need `k ≤ n`: the key table lies within the copied slots) -/
-theorem cloneCell_shape_all {s0 : Array Cell} {cur cur2 : Store} {ls le index ni : Nat} {c : Cell} {sh : Shape}
-    (hA : ∀ (i : Nat) (c : Cell), s0[i]? = some c → cur.cells[i]? = some c)
-    (hc : s0[index]? = some c) (hsh : shape s0 index = some sh)
-    (hwf : ∀ n k, c = .list n k → k ≤ n)
-    (hclone : Store.cloneCell cur ls le index c = .ok (cur2, ni)) :
-    ∃ sh', shape cur2.cells ni = some sh' ∧ sh'.label = sh.label ∧ sh'.inl = sh.inl ∧
-      AllRel (LinkVia cur ls le) sh.kids sh'.kids := by
-  by_cases hl : ∃ n k, c = .list n k
-  · obtain ⟨n, k, rfl⟩ := hl
-    exact cloneCell_shape_list hA hc hsh (hwf n k rfl) hclone
-  · obtain ⟨sh', g1, g2, g3, g4⟩ := cloneCell_shape hA hc hsh (fun n k h => hl ⟨n, k, h⟩) hclone
-    exact ⟨sh', g1, g2, g3, AllRel.imp (fun a b hab => ⟨cur, Grown.refl _, hab⟩) g4⟩
-
-/-- list headers whose key-table length does not exceed the list length (what `end_list` produces) -/
-def ListsWF (cells : Array Cell) : Prop := ∀ (i n k : Nat), cells[i]? = some (.list n k) → k ≤ n
-
-/-- `n` is a faithful copy of `o`: same label, same inline cells, links established by the loop -/
-def CloneOf (s0 : Array Cell) (cur : Store) (lo hi o n : Nat) : Prop :=
-  ∀ sh, shape s0 o = some sh → ∃ sh', shape cur.cells n = some sh' ∧ sh'.label = sh.label ∧ sh'.inl = sh.inl ∧
-    AllRel (Link cur lo hi) sh.kids sh'.kids
-
-def Good (s0 : Array Cell) (cur : Store) (lo hi o n : Nat) : Prop := n = o ∨ CloneOf s0 cur lo hi o n
-
-/-- heaps without list cells (the list arm of the clone step is not covered by the universal proof yet) -/
-def NoLists (cells : Array Cell) : Prop := ∀ (i n k : Nat), cells[i]? ≠ some (.list n k)
-
-/-- invariant of the reversed walk: positions `≥ top + k` of the index list are processed -/
-structure CInv (s0 : Array Cell) (s1 : Store) (top hi k : Nat) (cur : Store) : Prop where
-  agree0 : ∀ (i : Nat) (c : Cell), s0[i]? = some c → cur.cells[i]? = some c
-  start : cur.start = s1.start
-  ret : cur.retention = s1.retention
-  hiLe : hi ≤ cur.cells.size
-  bound : top + k ≤ hi
-  pending : ∀ j, j < top + k → j < hi → cur.cells[j]? = s1.cells[j]?
-  done : ∀ j, top + k ≤ j → j < hi → ∃ o n, cur.cells[j]? = some (.cloneIndexMap o n) ∧
-    s1.cells[j]? = some (.cloneItem o) ∧ Good s0 cur (top + k) hi o n
-
-theorem Link.mono {cur cur' : Store} {lo lo' hi x x' : Nat} (hlo : lo' ≤ lo) (hret : cur'.retention = cur.retention)
-    (hcells : ∀ j, lo ≤ j → j < hi → cur'.cells[j]? = cur.cells[j]?) (h : Link cur lo hi x x') :
-    Link cur' lo' hi x x' := by
-  rcases h with ⟨h1, h2⟩ | ⟨j, h1, h2, h3⟩
-  · exact Or.inl ⟨h1, by rw [hret]; exact h2⟩
-  · exact Or.inr ⟨j, by omega, h2, by rw [hcells j h1 h2]; exact h3⟩
-
-theorem Good.mono {s0 : Array Cell} {cur cur' : Store} {lo lo' hi o n : Nat} (hlo : lo' ≤ lo)
-    (hret : cur'.retention = cur.retention)
-    (hcells : ∀ j, lo ≤ j → j < hi → cur'.cells[j]? = cur.cells[j]?)
-    (hag : AgreeNC cur.cells cur'.cells) (h : Good s0 cur lo hi o n) : Good s0 cur' lo' hi o n := by
-  rcases h with h | h
-  · exact Or.inl h
-  · refine Or.inr ?_
-    intro sh hsh
-    obtain ⟨sh', h1, h2, h3, h4⟩ := h sh hsh
-    exact ⟨sh', shape_agree hag h1, h2, h3, AllRel.imp (fun a b hab => Link.mono hlo hret hcells hab) h4⟩
-
-theorem setCell_cells {s s' : Store} {i : Nat} {c : Cell} (h : Store.setCell s i c = .ok s') :
-    i < s.cells.size ∧ s'.cells = s.cells.setIfInBounds i c ∧ SameFrame s s' := by
-  unfold Store.setCell at h
-  split at h
-  · simp only [Outcome.ok.injEq] at h
-    subst h
-    exact ⟨by assumption, rfl, SameFrame.rfl' _⟩
-  · simp at h
-
-/-- one iteration of the reversed walk keeps the invariant (offset 0: `clone_data`) -/
-theorem cloneLoop_step_inv {s0 : Array Cell} {s1 : Store} {top hi : Nat} (htop : s0.size ≤ top) (hnl : ListsWF s0) :
-    ∀ (k : Nat) (cur s' : Store), CInv s0 s1 top hi k cur →
-      Store.cloneLoop 0 (s1.start + hi) top k cur = .ok s' → CInv s0 s1 top hi 0 s'
-  | 0, cur, s', hinv, h => by
-    simp only [Store.cloneLoop, Outcome.ok.injEq] at h
-    subst h; exact hinv
-  | k + 1, cur, s', hinv, h => by
-    simp only [Store.cloneLoop, bind_eq_ok] at h
-    obtain ⟨ci, hgi, h2⟩ := h
-    have hci := get_ok hgi
-    split at h2
-    · rename_i index
-      simp only [bind_eq_ok] at h2
-      obtain ⟨existing, hex, ⟨cur2, ni⟩, h3, s2, hset, hrest⟩ := h2
-      have hstart : cur.start + (top + k) + 1 = cur.start + (top + k + 1) := by omega
-      rw [hstart, ← hinv.start] at hex
-      rw [hstart, ← hinv.start] at h3
-      -- the store after the optional clone, and what the new map entry satisfies
-      have key : Ext (top + k + 1) cur cur2 ∧ (∀ j, j < cur.cells.size → cur2.cells[j]? = cur.cells[j]?) ∧
-          Good s0 cur2 (top + k + 1) hi index ni := by
-        cases existing with
-        | some j' =>
-          simp only [pure, Outcome.ok.injEq, Prod.mk.injEq] at h3
-          obtain ⟨hc2, hni⟩ := h3
-          subst hc2; subst hni
-          refine ⟨Ext.refl _ _, fun _ _ => rfl, ?_⟩
-          rcases lookupOpt_link hex with ⟨h1, _⟩ | ⟨j, h1, h2, hcell⟩
-          · exact Or.inl h1
-          · obtain ⟨o, n, hcell', _, hgood⟩ := hinv.done j (by omega) h2
-            rw [hcell] at hcell'
-            simp only [Option.some.injEq, Cell.cloneIndexMap.injEq] at hcell'
-            obtain ⟨ho, hn⟩ := hcell'
-            subst ho; subst hn
-            have hk : top + (k + 1) = top + k + 1 := by omega
-            rw [hk] at hgood
-            exact hgood
-        | none =>
-          simp only [bind_eq_ok] at h3
-          obtain ⟨c, hgc, ⟨cur2', ni'⟩, hclone, h4⟩ := h3
-          have hni : cur2' = cur2 ∧ ni' = ni := by
-            split at h4
-            · simpa [pure] using h4
-            · split at h4
-              · simp at h4
-              · simpa [pure] using h4
-          obtain ⟨hc2, hni⟩ := hni
-          subst hc2; subst hni
-          have hext := cloneCell_ext (top + k + 1) hclone
-          have hkeep : ∀ j, j < cur.cells.size → cur2'.cells[j]? = cur.cells[j]? :=
-            fun j hj => (cloneCell_ext (j + 1) hclone).keep j (by omega) hj
-          refine ⟨hext, hkeep, Or.inr ?_⟩
-          intro sh hsh
-          obtain ⟨c0, hc0⟩ := shape_cell hsh
-          have hcc : c = c0 := by
-            have := hinv.agree0 index c0 hc0
-            rw [get_ok hgc] at this
-            exact Option.some.inj this
-          subst hcc
-          obtain ⟨sh', g1, g2, g3, g4⟩ := cloneCell_shape_all hinv.agree0 hc0 hsh (fun n k hck => hnl index n k (by rw [hc0, hck])) hclone
-          refine ⟨sh', g1, g2, g3, AllRel.imp (fun a b ⟨st, hgr, hab⟩ => ?_) g4⟩
-          rw [← hgr.start] at hab
-          have hl := lookup_link hab
-          exact Link.mono (Nat.le_refl _) (hext.frame.1.trans hgr.ret.symm)
-            (fun j hj1 hj2 => (hkeep j (by have := hinv.hiLe; omega)).trans
-              (hgr.keep j (by have := hinv.hiLe; omega)).symm) hl
-      obtain ⟨hext, hkeep, hgood⟩ := key
-      obtain ⟨hilt, hcells2, hframe2⟩ := setCell_cells hset
-      have hi_lt : top + k < hi := by have := hinv.bound; omega
-      have hcur2i : cur2.cells[top + k]? = some (.cloneItem index) := by
-        rw [hkeep _ (by have := hinv.hiLe; omega)]; exact hci
-      -- only the `CloneItem` at `top + k` changes between `cur2` and `s2`
-      have hag2 : AgreeNC cur2.cells s2.cells := by
-        intro j d hj hne
-        rw [hcells2]
-        by_cases hji : j = top + k
-        · subst hji
-          rw [hcur2i] at hj
-          exact absurd (Option.some.inj hj).symm (hne index)
-        · simp [Ne.symm hji, hj]
-      have hother : ∀ j, j ≠ top + k → s2.cells[j]? = cur2.cells[j]? := by
-        intro j hj
-        rw [hcells2]
-        simp [Ne.symm hj]
-      have hinv2 : CInv s0 s1 top hi k s2 := by
-        refine ⟨?_, ?_, ?_, ?_, by omega, ?_, ?_⟩
-        · intro j d hj
-          have hjlt : j < s0.size := by
-            rcases Nat.lt_or_ge j s0.size with h | h
-            · exact h
-            · rw [Array.getElem?_eq_none h] at hj; cases hj
-          have h1 := hinv.agree0 j d hj
-          have hjc : j < cur.cells.size := by
-            rcases Nat.lt_or_ge j cur.cells.size with h | h
-            · exact h
-            · rw [Array.getElem?_eq_none h] at h1; cases h1
-          rw [hother j (by omega), hkeep j hjc]; exact h1
-        · rw [hframe2.2.1, hext.frame.2.1]; exact hinv.start
-        · rw [hframe2.1, hext.frame.1]; exact hinv.ret
-        · rw [hcells2]; simp; exact Nat.le_trans hinv.hiLe hext.mono
-        · intro j hj1 hj2
-          rw [hother j (by omega), hkeep j (by have := hinv.hiLe; omega)]
-          exact hinv.pending j (by omega) hj2
-        · intro j hj1 hj2
-          have hcellsJ : ∀ j', top + k + 1 ≤ j' → j' < hi → s2.cells[j']? = cur2.cells[j']? :=
-            fun j' h1 _ => hother j' (by omega)
-          by_cases hji : j = top + k
-          · subst hji
-            refine ⟨index, ni, ?_, ?_, Good.mono (by omega) hframe2.1 hcellsJ hag2 hgood⟩
-            · rw [hcells2]
-              simp [hilt]
-            · rw [← hinv.pending (top + k) (by omega) hi_lt]; exact hci
-          · obtain ⟨o, n, hcell, hs1, hg⟩ := hinv.done j (by omega) hj2
-            have hk : top + (k + 1) = top + k + 1 := by omega
-            rw [hk] at hg
-            refine ⟨o, n, ?_, hs1, ?_⟩
-            · rw [hother j hji, hkeep j (by have := hinv.hiLe; omega)]; exact hcell
-            · have hg2 : Good s0 cur2 (top + k + 1) hi o n :=
-                Good.mono (Nat.le_refl _) hext.frame.1
-                  (fun j' h1 h2 => hkeep j' (by have := hinv.hiLe; omega))
-                  (fun j' d hj' _ => by
-                    have : j' < cur.cells.size := by
-                      rcases Nat.lt_or_ge j' cur.cells.size with h | h
-                      · exact h
-                      · rw [Array.getElem?_eq_none h] at hj'; cases hj'
-                    rw [hkeep j' this]; exact hj') hg
-              exact Good.mono (by omega) hframe2.1 hcellsJ hag2 hg2
-      exact cloneLoop_step_inv htop hnl k s2 s' hinv2 hrest
-    · simp at h2
-
-
-theorem AllRel.imp_mem {α β} {R S : α → β → Prop} : ∀ {l : List α} {l' : List β},
-    (∀ a b, a ∈ l → R a b → S a b) → AllRel R l l' → AllRel S l l'
-  | _, _, _, .nil => .nil
-  | _, _, h, .cons hab t =>
-    .cons (h _ _ (by simp) hab) (AllRel.imp_mem (fun a b ha hr => h a b (by simp [ha]) hr) t)
-
-theorem allRel_refl_of {α} {S : α → α → Prop} : ∀ (l : List α), (∀ a ∈ l, S a a) → AllRel S l l
-  | [], _ => .nil
-  | a :: l, h => .cons (h a (by simp)) (allRel_refl_of l (fun b hb => h b (by simp [hb])))
-
-/-- **clone_preserves**: the address returned by `clone_data` unfolds to the same
-tree as the argument, for every fuel, whenever the argument has an unfolding at all (acyclic, well formed) -/
-theorem cloneData_preserves {s s' : Store} {a r : Nat} (h : Store.cloneData s a = .ok (s', r))
-    (hnl : ListsWF s.cells) (hd : Dec s.cells a) : ∀ fuel, unfold s.cells fuel a = unfold s'.cells fuel r := by
-  simp only [Store.cloneData, bind_eq_ok] at h
-  obtain ⟨⟨s1, st⟩, h1, h2⟩ := h
-  obtain ⟨e1, hst⟩ := createIndexStack_ext s.cells.size h1
-  subst hst
-  -- the head of the index list is `CloneItem a`
-  have hhead : s1.cells[s.cells.size]? = some (.cloneItem a) := by
-    simp only [Store.createIndexStack, bind_eq_ok, pure_eq_ok] at h1
-    obtain ⟨⟨sp, ip⟩, hp, sl, hl, h3⟩ := h1
-    simp only [Prod.mk.injEq] at h3
-    obtain ⟨h3, _⟩ := h3
-    subst h3
-    obtain ⟨_, hcells, _⟩ := push_ok hp
-    have e := indexLoop_ext (s.cells.size + 1) _ _ _ _ _ _ hl
-    rw [e.keep s.cells.size (by omega) (by rw [hcells]; simp), hcells]
-    simp
-  simp only [Store.cloneIndexStack, bind_eq_ok] at h2
-  obtain ⟨s2, hloop, c, hgt, h3⟩ := h2
-  have hsize : s.cells.size < s1.cells.size := by
-    rcases Nat.lt_or_ge s.cells.size s1.cells.size with h | h
-    · exact h
-    · rw [Array.getElem?_eq_none h] at hhead; cases hhead
-  have hinv0 : CInv s.cells s1 s.cells.size s1.cells.size (s1.cells.size - s.cells.size) s1 := by
-    refine ⟨?_, rfl, rfl, Nat.le_refl _, by omega, fun _ _ _ => rfl, ?_⟩
-    · intro i c hc
-      have hi : i < s.cells.size := by
-        rcases Nat.lt_or_ge i s.cells.size with h | h
-        · exact h
-        · rw [Array.getElem?_eq_none h] at hc; cases hc
-      rw [e1.keep i hi hi]; exact hc
-    · intro j hj1 hj2; omega
-  have hinv := cloneLoop_step_inv (Nat.le_refl _) hnl _ _ _ hinv0 (by simpa [Store.cursor] using hloop)
-  -- the entry at the head of the list
-  obtain ⟨o, n, hcell, hs1, hgood⟩ := hinv.done s.cells.size (by omega) hsize
-  rw [hhead] at hs1
-  simp only [Option.some.injEq, Cell.cloneItem.injEq] at hs1
-  subst hs1
-  have hc := get_ok hgt
-  rw [hcell] at hc
-  simp only [Option.some.injEq] at hc
-  subst hc
-  simp only [pure, Outcome.ok.injEq, Prod.mk.injEq] at h3
-  obtain ⟨hs', hr⟩ := h3
-  subst hs'; subst hr
-  have hag : AgreeNC s.cells s2.cells := agreeNC_of_all hinv.agree0
-  -- the bisimulation
-  intro fuel
-  refine bisim_unfold s.cells s2.cells
-    (fun x x' => Dec s.cells x ∧ (x' = x ∨ ∃ j, s.cells.size ≤ j ∧ j < s1.cells.size ∧
-      s2.cells[j]? = some (.cloneIndexMap x x'))) ?_ fuel a n ⟨hd, Or.inr ⟨_, Nat.le_refl _, hsize, hcell⟩⟩
-  intro x x' ⟨hdx, hx⟩
-  obtain ⟨sh, hsh, hk⟩ := hdx.shape
-  have ident : ∃ s_1 s'_1, shape s.cells x = some s_1 ∧ shape s2.cells x = some s'_1 ∧ s_1.label = s'_1.label ∧
-      s_1.inl = s'_1.inl ∧ AllRel (fun x x' => Dec s.cells x ∧ (x' = x ∨ ∃ j, s.cells.size ≤ j ∧ j < s1.cells.size ∧
-        s2.cells[j]? = some (.cloneIndexMap x x'))) s_1.kids s'_1.kids :=
-    ⟨sh, sh, hsh, shape_agree hag hsh, rfl, rfl, allRel_refl_of _ (fun k hkm => ⟨hk k hkm, Or.inl rfl⟩)⟩
-  rcases hx with rfl | ⟨j, hj1, hj2, hjc⟩
-  · exact ident
-  · obtain ⟨o', n', hcell', _, hg⟩ := hinv.done j (by omega) hj2
-    rw [hjc] at hcell'
-    simp only [Option.some.injEq, Cell.cloneIndexMap.injEq] at hcell'
-    obtain ⟨ho, hn⟩ := hcell'
-    subst ho; subst hn
-    rcases hg with rfl | hg
-    · exact ident
-    · obtain ⟨sh', g1, g2, g3, g4⟩ := hg sh hsh
-      refine ⟨sh, sh', hsh, g1, g2.symm, g3.symm, AllRel.imp_mem (fun k k' hkm hl => ⟨hk k hkm, ?_⟩) g4⟩
-      rcases hl with ⟨h1, _⟩ | ⟨j', h1, h2, h3⟩
-      · exact Or.inl h1
-      · exact Or.inr ⟨j', by omega, h2, h3⟩
-
 end Garnish.BasicOpt
